@@ -226,4 +226,6 @@ OPTION_SETS = [
     {}, {'fast_match': True}, {'best_match': True}, {'F': 0.9}, {'F': 0.1, 'fast_match': True},
     {'ratio_mode': 'accurate'}, {'ratio_mode': 'faster', 'best_match': True},
     {'uniqueattrs': ['i']}, {'uniqueattrs': [('a', 'i')], 'fast_match': True},
+    # both strategies requested through the API (the command line keeps them exclusive): fast_match takes precedence
+    {'fast_match': True, 'best_match': True},
 ]
